@@ -132,6 +132,46 @@ func searchHandle(r *oracle.Report, tag string, idx segment.VectorIndex, vq vecQ
 	if pl.Count() != uint64(len(out)) {
 		r.Fail("vec-count", "%s: Count %d, iterator yields %d", tag, pl.Count(), len(out))
 	}
+	// the same result through Advance: pairs come in ascending document order;
+	// Advance(d) yields the first pair of a document >= d, and nil past the last one
+	for k := 1; k < len(out); k++ {
+		if out[k].doc < out[k-1].doc {
+			r.Fail("vec-order", "%s: pairs not in ascending document order: %v", tag, out)
+			return out, true
+		}
+	}
+	if len(out) > 0 {
+		it2 := pl.Iterator(nil)
+		last := out[len(out)-1].doc
+		pos, returned := 0, int64(-1)
+		for _, d := range []uint64{0, out[len(out)/2].doc, last, last + 1, last + 1000} {
+			if int64(d) <= returned {
+				continue // targets lie strictly beyond the last returned document
+			}
+			var want *vecPair
+			for k := pos; k < len(out); k++ {
+				if out[k].doc >= d {
+					want = &out[k]
+					pos = k + 1
+					returned = int64(out[k].doc)
+					break
+				}
+			}
+			p, err := it2.Advance(d)
+			switch {
+			case err != nil:
+				r.Fail("vec-iter-err", "%s: Advance(%d): %v", tag, d, err)
+			case want == nil && p != nil:
+				r.Fail("vec-advance", "%s: Advance(%d) past the last pair (doc %d) yields doc %d", tag, d, last, p.Number())
+			case want != nil && (p == nil || p.Number() != want.doc || p.Score() != want.score):
+				r.Fail("vec-advance", "%s: Advance(%d) yields %v, want (doc %d, %v)", tag, d, p, want.doc, want.score)
+			}
+			r.Inc("vec_advance_steps", 1)
+			if err != nil || p == nil {
+				break
+			}
+		}
+	}
 	return out, true
 }
 
